@@ -186,6 +186,11 @@ def assemble2(items, layout):
             entries.append((64, len(recs), None))
             passes.append({'spec': it[1], 'model': model, 'data_recs': [len(recs) + 1 + i for i in range(len(body) - 1)]})
             recs.extend(body)
+        elif it[0] == 'orphans':
+            # data records whose format specification is missing from their logical file: they belong to no log pass
+            body, _model = build_pass(it[1], it[2])
+            info.append((len(recs), None))
+            recs.extend(body[1:])
         else:
             _, sa, pka, sb, pkb, order = it
             body_a, model_a = build_pass(sa, pka)
@@ -677,6 +682,11 @@ def gen_B(tier):
             yield [['pass', spec, 0], ['pass', spec2, 1]], layout, ops2
             yield [['pass', spec, 0], 'cons', ['pass', spec2, 1], 'file_tail'], layout, ops2
             yield ['cons', ['pass', spec, 0]], layout, ops1
+            # data records without a format specification in their own logical file: no pass of theirs, nothing added to another
+            yield ['file_head', ['pass', spec, 0], 'file_tail', 'file_head', ['orphans', spec2, 1], 'file_tail'], layout, ops1
+            yield ['file_head', ['orphans', spec2, 1], ['pass', spec, 0], 'file_tail'], layout, ops1
+            yield ['file_head', ['orphans', spec, 0], 'file_tail', 'file_head', ['pass', spec2, 1], 'file_tail'], layout, \
+                [['load', 0, None, None], ['load', 0, [1, 4, 2], [1]]]
 
 
 def gen_H(tier):
